@@ -165,6 +165,33 @@ async fn rotate(addr_old: SocketAddr, addr_new: SocketAddr, a: &Certs, n: usize,
     match tokio::time::timeout(Duration::from_secs(40), r).await { Ok(Ok(s)) => s, Ok(Err(e)) => format!("void:{}", format!("{e}").replace(' ', "_").chars().take(80).collect::<String>()), Err(_) => "void:timeout".into() }
 }
 
+/// `tls cafile trusted`: within one process, the CA file a client is configured with is replaced between two `connect()`s
+/// that name the same path: first it holds CA A (the client talks to the server certified by A: accepted, otherwise the
+/// scenario is void), then CA B. The second client is configured with CA B — it must refuse the server certified by A.
+async fn cafile(addr_a: SocketAddr, a: &Certs, b: &Certs, topic: &str) -> String {
+    let r = async {
+        let dir = scratch_dir("tlsP");
+        std::fs::create_dir_all(&dir)?;
+        let p = dir.join("configured-ca.der");
+        std::fs::copy(a.client("ca.der"), &p)?;
+        let (cert, key) = (a.client("localhost.der"), a.client("localhost.key.der"));
+        {
+            let client = client_with(addr_a, &p, &cert, &key, BackoffStrategy::constant().with_max_attempts(0)).await.map_err(|e| anyhow::anyhow!("void: {e}"))?;
+            let mut pb = client.publisher(topic).with_encoder(StringCodec).open().await.map_err(|e| anyhow::anyhow!("void: {e}"))?;
+            pb.send("hello".to_string()).await.map_err(|e| anyhow::anyhow!("void: {e}"))?;
+        }
+        std::fs::copy(b.client("ca.der"), &p)?;
+        let second = async {
+            let client = client_with(addr_a, &p, &cert, &key, BackoffStrategy::constant().with_max_attempts(0)).await?;
+            let mut pb = client.publisher(topic).with_encoder(StringCodec).open().await?;
+            pb.send("hello".to_string()).await?;
+            Ok::<_, anyhow::Error>(())
+        };
+        Ok::<_, anyhow::Error>(match tokio::time::timeout(Duration::from_secs(8), second).await { Ok(Ok(())) => "accept".to_string(), _ => "refuse".to_string() })
+    };
+    match tokio::time::timeout(Duration::from_secs(30), r).await { Ok(Ok(s)) => s, Ok(Err(e)) => format!("void:{}", format!("{e}").replace(' ', "_").chars().take(80).collect::<String>()), Err(_) => "void:timeout".into() }
+}
+
 pub fn run(cfg: &Cfg) {
     let mut out = Out::new(&cfg.out, "e2etls");
     let rt = runtime();
@@ -225,14 +252,48 @@ pub fn run(cfg: &Cfg) {
         cases.push("tls trusted trusted".into());
         cases.push("tls wrongca trusted".into());
         cases.push("tls rotate 3".into());
+        cases.push("tls cafile trusted".into());
+        for c in ["trusted", "otherca", "selfsigned", "none"] { cases.push(format!("tlsd {c}")); }
         // whoever presents a certificate of CA A somewhere in its chain is not thereby certified by CA A
         cases.push("tls trusted otherca+chain".into());
     }
+    let mut addr_default: Option<SocketAddr> = None;
     for (i, c) in cases.iter().enumerate() {
         let t: Vec<&str> = c.split(' ').collect();
-        let addr = if t[2] == "trusted" { addr_t } else if t[2] == "noexp" { addr_n } else if t[2] == "otherca+chain" { addr_chain } else { addr_o };
+        if t[0] == "tlsd" {
+            // a server started the way the README's quick start does it - no `--ca`, `--cert`, `--key`: the files under
+            // `certs/server/` of its working directory - in a process of its own, whose working directory holds set A
+            out.stat("default_arguments");
+            let dir = scratch_dir("tlsD");
+            let _ = std::fs::create_dir_all(&dir);
+            let f = dir.join("one.cases");
+            std::fs::write(&f, format!("tls default {}\n", t[1])).unwrap();
+            let st = std::process::Command::new(std::env::current_exe().unwrap())
+                .args(["e2etls", "--replay", f.to_str().unwrap(), "--out", dir.join("out").to_str().unwrap(), "--seed", &cfg.seed.to_string()])
+                .current_dir(&dir).stdout(std::process::Stdio::null()).stderr(std::process::Stdio::null()).status();
+            let line = std::fs::read_to_string(dir.join("out").join("e2etls.impl")).unwrap_or_default().trim().to_string();
+            let want = if t[1] == "trusted" { "accept" } else { "refuse" };
+            let (imp, mon) = match st {
+                Ok(x) if x.success() && line == want => (line, Ok(())),
+                Ok(x) if x.success() => (line.clone(), Err(format!("C15: a server started with its default arguments (the CA next to its certificate) and a client with identity {}: {line}, must {want}", t[1]))),
+                _ => ("CRASH".to_string(), Err("C15: the server process with default arguments could not be run".to_string())),
+            };
+            let _ = std::fs::remove_dir_all(&dir);
+            out.case(c, &imp, mon);
+            continue;
+        }
+        if t[1] == "default" && addr_default.is_none() {
+            // (child side of `tlsd`) the working directory is a scratch directory of the parent's
+            let d = std::path::Path::new("certs").join("server");
+            std::fs::create_dir_all(&d).expect("certs/server");
+            for f in ["ca.der", "localhost.der", "localhost.key.der"] { std::fs::copy(a.server(f), d.join(f)).expect("copy"); }
+            addr_default = Some(rt.block_on(async { start_server_default_arguments() }).expect("server with default arguments"));
+        }
+        let addr = if t[1] == "default" { addr_default.unwrap() } else if t[2] == "trusted" { addr_t } else if t[2] == "noexp" { addr_n } else if t[2] == "otherca+chain" { addr_chain } else { addr_o };
         let topic = format!("/verif/tls{i}");
-        let res = if t[1] == "rotate" { rt.block_on(rotate(addr_t, addr_rot, &a, t[2].parse().unwrap_or(1), &topic)) }
+        let res = if t[1] == "cafile" { rt.block_on(cafile(addr_t, &a, &b, &topic)) }
+            else if t[1] == "default" { rt.block_on(attempt(addr, &a, &b, &ss, &bun, t[2], &topic)) }
+            else if t[1] == "rotate" { rt.block_on(rotate(addr_t, addr_rot, &a, t[2].parse().unwrap_or(1), &topic)) }
             else if t[1] == "noexp" { rt.block_on(attempt(addr, &ne, &b, &ss, &bun, "trusted", &topic)) }
             else if t[1] == "rerun" {
                 // the client half written by the second run
@@ -252,7 +313,7 @@ pub fn run(cfg: &Cfg) {
             else if t[1] == "lapsedself" { rt.block_on(attempt_with(addr, &a, &b, &ss, &bun, "explicit", &topic, Some(&old[0]))) }
             else if t[1] == "lapsedother" { rt.block_on(attempt_with(addr, &a, &b, &ss, &bun, "explicit", &topic, Some(&old[1]))) }
             else { rt.block_on(attempt(addr, &a, &b, &ss, &bun, t[1], &topic)) };
-        let want = if t[1] == "rotate" { "refuse" } else if t[1] == "rerun" { "accept" } else if (t[1] == "trusted" || t[1] == "bundle" || t[1] == "noexp") && (t[2] == "trusted" || t[2] == "noexp") && (t[1] == "noexp") == (t[2] == "noexp") { "accept" } else { "refuse" };
+        let want = if t[1] == "default" { if t[2] == "trusted" { "accept" } else { "refuse" } } else if t[1] == "rotate" || t[1] == "cafile" { "refuse" } else if t[1] == "rerun" { "accept" } else if (t[1] == "trusted" || t[1] == "bundle" || t[1] == "noexp") && (t[2] == "trusted" || t[2] == "noexp") && (t[1] == "noexp") == (t[2] == "noexp") { "accept" } else { "refuse" };
         let mon = if res == want { Ok(()) } else { Err(format!("C15: client identity {} against server identity {}: {res}, must {want}", t[1], t[2])) };
         out.stat(&format!("client_{}", t[1]));
         out.case(c, &res, mon);
